@@ -20,7 +20,7 @@ def tasks(tier):
 
     from contracts import callsites_c
 
-    return [dict(name="frames.rebuild", build=callsites_c.task(), mode="F")] + _tm.mtm_missing_tasks(("plain", "coded", "empty")) + _tm.typemap_tasks()[1:2] + _tm.frame_tasks() + _tm.state_tasks() + _core.compile_parent_tasks() + _core.compile_tasks()
+    return [dict(name="frames.rebuild", build=callsites_c.task(), mode="F")] + _tm.mtm_missing_tasks(("plain", "coded", "empty")) + _tm.typemap_tasks()[1:2] + _tm.frame_tasks() + _tm.state_tasks() + _core.compile_parent_tasks() + _core.compile_tasks() + _core.descriptor_tasks()
 
 
 def conformance(tier):
